@@ -65,3 +65,32 @@ Definition client_exchange_shared_h2_pool (st : stack) (cs : list settings) (k :
       Some (respond st (cfg_under s q) (match st with H2 => set_auto s0 | _ => set_auto s end) ended r)
   | _, _ => None
   end.
+
+(* ---------- what travels with the request, and what would stay on the connection ---------- *)
+
+(* HTTP/1: "the transport added Accept-Encoding: gzip" travels with the request (requestAndChan.addedGzip,
+   set by roundTrip, read by readLoop for THAT request); a response without a body (204, 304,
+   Content-Length: 0, HEAD) takes the early `continue` of readLoop and never looks at it.  In
+   `live_exchange` the decision is a function of the exchange's own request.  NOT the code: the flag as
+   a field of the connection that roundTrip sets and readLoop takes only where it builds a body - after
+   a bodiless answer it stays set for the next exchange on the kept-alive connection. *)
+Record h1conn := { pc_added : bool }.
+
+Definition bodiless (q : reqshape) (r : resp) : bool := rq_head q || (r_cl r =? 0)%Z.
+
+Definition h1_exchange_connflag (pc : h1conn) (cur : settings) (q : reqshape) (r : resp)
+  : resp * h1conn :=
+  let added := asked_gzip H1 (cfg_under cur q) || pc_added pc in   (* roundTrip only ever sets it *)
+  if bodiless q r then (r, {| pc_added := added |})                 (* the early continue: not taken *)
+  else
+    let ce := content_encoding (r_ce r) in
+    (apply_action (if added && equal_fold ce tok_gzip then Gunzip
+                   else if set_auto cur then auto_action ce else Untouched) r,
+     {| pc_added := false |}).
+
+Fixpoint h1_run_connflag (pc : h1conn) (steps : list live_step) : list resp :=
+  match steps with
+  | [] => []
+  | (cur, q, _, r) :: rest =>
+      let '(r', pc') := h1_exchange_connflag pc cur q r in r' :: h1_run_connflag pc' rest
+  end.
